@@ -32,6 +32,7 @@ from pydiverse.transform._internal.errors import (
 )
 from pydiverse.transform._internal.ops import ops
 from pydiverse.transform._internal.ops.op import Ftype
+from pydiverse.transform._internal.ops.ops.markers import Marker
 from pydiverse.transform._internal.pipe.pipeable import (
     Pipeable,
     check_subquery,
@@ -1155,6 +1156,7 @@ def join(
     # Lambda column resolution and checks for existence of columns are done manually
     # here since we need to incorporate columns from the right.
     def _preprocess_on(expr: ColExpr):
+        check_no_marker(expr)
         if isinstance(expr, ColName):
             if expr in left:
                 if expr in right:
@@ -1618,11 +1620,25 @@ def ast_repr(table: Table, verb_depth: int = 7, expr_depth: int = 2, *, pipe: bo
     return table if pipe else None
 
 
+def check_no_marker(expr: ColExpr):
+    # The markers at the top of an `arrange` / `arrange=` key have been turned into an
+    # `Order` at this point. Every marker left is nested inside an expression.
+    if isinstance(expr, ColFn) and isinstance(expr.op, Marker):
+        raise TypeError(
+            f"invalid usage of `{expr.op.name}` in a column expression.\n"
+            "note: This marker function can only be used in arguments to the "
+            "`arrange` verb or the `arrange=` keyword argument to window "
+            "functions. Furthermore, all markers have to be at the top of the "
+            "expression tree (i.e. cannot be nested inside a column function)."
+        )
+
+
 def preprocess_arg(arg: ColExpr, table: Table, *, agg_is_window: bool = True) -> Any:
     arg = wrap_literals(arg)
     assert isinstance(arg, ColExpr | Order)
 
     def _preprocess_expr(expr: ColExpr, eval_aligned: bool = False):
+        check_no_marker(expr)
         if isinstance(expr, Col) and expr._uuid not in table._cache.cols and not eval_aligned:
             raise ColumnNotFoundError(f"column `{expr.ast_repr()}` does not exist in table `{table._ast.name}`")
 
